@@ -185,16 +185,17 @@ PROPS = {
         "asm": ["common/tramp.asm"],
         "quick": {"cases": 160000},
         "thorough": {"cases": 6000000},
-        "rule": "rapidcheck cases of five kinds, every library call routed through the assembly trampoline (chosen sentinels in rbx/rbp/r12-r15, random caller-saved "
+        "rule": "rapidcheck cases of seven kinds, every library call routed through the assembly trampoline (chosen sentinels in rbx/rbp/r12-r15, random caller-saved "
                 "registers, flags, zmm/k state; private stack with canary words above the call frame): hash submit/flush histories (valid and rejected submits) on "
                 "every ctx family + legacy + isal_; multi-hash/murmur init/update/finalize on every family; every AES entry point x family x exit-path class (C14's "
-                "operation table); every catalog isal_/legacy entry with valid arguments and with a NULL first pointer (error-return path); the three rolling-hash scan "
-                "loops with generated (idx, max) remainders. One case in five first re-arms every dispatch pointer (hook) so the call runs through the first-call "
+                "operation table; XTS also with 0..15 bytes, the sub-block early return); every catalog isal_/legacy entry with valid arguments and with a NULL first "
+                "pointer (error-return path); the three rolling-hash scan loops with generated (idx, max) remainders; every job-manager level family "
+                "(_<algo>_mb_mgr_{init,submit,flush}_<fam>, _sha512_sb_mgr_*_sse4) with 0..2*lanes+1 jobs then flushes; every multi-hash / murmur block and tail "
+                "function called directly. One case in five first re-arms every dispatch pointer (hook) so the call runs through the first-call "
                 "resolver. Oracle after every return: rsp as expected, rbx/rbp/r12-r15 equal their sentinels, DF clear, MXCSR control bits and x87 control word "
                 "unchanged, canaries above the frame intact. Non-trivial = every case; distinct = (sequence of symbols called, exit-path class, via resolver or not).",
         "assumptions": COMMON_ASSUME + ["kernels with private register conventions (sha*_mb_x*, *_ni_x1/x2, *_opt_x1, md5_mb_x*) are not SysV entry points and are exercised "
-                                        "only through their managers", "block-level and mb_mgr-level functions are covered transitively through the ctx-level calls "
-                                        "(a clobber propagates unless the C layer happens to save that register)"],
+                                        "only through their managers"],
     },
     "C20": {
         "title": "Results depend on declared inputs only, never on stale memory or registers",
@@ -267,7 +268,7 @@ PROPS = {
         "quick": {"cases": 40000},
         "thorough": {"cases": 1500000, "opts": ["enum=1"], "budget_s": 5400},
         "technique": "property-based testing of schedules: deterministic instruction-level scheduler (x86 trap flag, logical threads as contexts in one OS thread), "
-                     "rapidcheck-generated and shrinkable schedules, history invariants as oracle",
+                     "rapidcheck-generated and shrinkable schedules, plus generated rounds of simultaneous first calls by real threads; history invariants as oracle",
         "rule": "FIPS_MODE build. rapidcheck cases: 1..5 logical threads, each making its first call through isal_self_tests() or through a cheap approved entry "
                 "(isal_sha1_ctx_mgr_init) and then a second isal_self_tests(); self-test outcome in {pass, fail}; the wrapped self-test bodies spin 0..40 yield "
                 "points; schedule = either a byte string of (thread, burst length) decisions followed by a fair round-robin tail, or a run-to-yield schedule "
@@ -276,10 +277,15 @@ PROPS = {
                 "thread returns success, and the wrapped approved entry does not start its work, before the self tests have finished and the verdict is published; "
                 "all first and second calls return the same verdict (0 / ISAL_CRYPTO_ERR_SELF_TEST); every thread finishes within the step bound under the fair "
                 "tail. Non-trivial = at some step >=2 threads were inside asm_check_self_tests_status, or a loser reached the spin loop before the publish. "
+                "One case in twelve is a parallel case instead: 2..6 real OS threads released together by a spin barrier with generated per-thread skews "
+                "(0..40 pause iterations, rotated each round), 20..400 rounds per case, every round from NOT_DONE, same oracle; non-trivial there = a round in which "
+                ">=2 threads read an unpublished status right before their call. "
                 "Distinct = hash of the case JSON. The thorough tier additionally enumerates EVERY run-to-yield schedule with at most two preemptions (position x "
                 "target thread) for 12 two-thread and 4 three-thread combinations of (entry kinds, outcome, yield points): about 7.5 x 10^5 schedules, complete for that bound.",
         "assumptions": COMMON_ASSUME + ["sequential consistency: x86-TSO store buffering is not modelled (the protocol's only plain store is the final publish, after "
-                                        "which the publisher reads nothing back)", "real-thread stress is not the deciding engine"],
+                                        "which the publisher reads nothing back)",
+                                        "parallel cases: the interleaving is chosen by the hardware, not by the generator; they decide atomicity of single "
+                                        "instructions only and are confirmed by repeated rounds, not by a deterministic replay"],
     },
     "C18": {
         "title": "No hidden shared state: independent objects are usable from different threads",
